@@ -469,6 +469,8 @@ async fn fee_transaction_pays_solver_and_routers() {
         assert!(fees3 > 0);
         // block 4 holds a golden ticket for block 3: it pays block 3's fees out
         // (built the way Mempool::bundle_block does: the golden ticket transaction is handed to Block::create)
+        // the ticket is solved by the wallet's key, the block is produced by a different node
+        let (producer_pk, producer_sk) = generate_keys();
         let block4 = {
             let difficulty = { t.blockchain_lock.read().await.get_block(&h3).unwrap().difficulty };
             let gt = TestManager::create_golden_ticket(t.wallet_lock.clone(), h3, difficulty).await;
@@ -477,8 +479,8 @@ async fn fee_transaction_pays_solver_and_routers() {
             let configs = t.config_lock.read().await;
             let mut txs: AHashMap<SaitoSignature, Transaction> = Default::default();
             let bc = t.blockchain_lock.read().await;
-            let mut b = Block::create(&mut txs, h3, std::ops::Deref::deref(&bc), ts3 + 10 * heartbeat, &public_key, &private_key, Some(gttx), std::ops::Deref::deref(&configs), &t.storage).await.unwrap();
-            b.generate().unwrap(); b.sign(&private_key);
+            let mut b = Block::create(&mut txs, h3, std::ops::Deref::deref(&bc), ts3 + 10 * heartbeat, &producer_pk, &producer_sk, Some(gttx), std::ops::Deref::deref(&configs), &t.storage).await.unwrap();
+            b.generate().unwrap(); b.sign(&producer_sk);
             b
         };
         let b4 = block4.clone();
